@@ -7,7 +7,7 @@ From Coq Require Import Sorted.
 (* C02's model (read-only; used by C01_mode_dot_is_fold_matmul_unfold only) is imported FIRST so that C01's own names win *)
 From TLV Require Import Model.Tenalg.
 From TLV Require Import Base.Shape Base.PyList Base.Tensor Model.Base Model.BaseExt Model.BasePy Model.BasePyCore
-  Proofs.BaseProofs Proofs.BaseProofs2 Proofs.BaseProofs3 Proofs.BaseProofs4 Proofs.BaseProofs5 Proofs.BaseProofs6 Proofs.BaseProofs7 Proofs.BaseProofs8 Proofs.BaseProofs9 Proofs.BaseProofs10 Proofs.BaseProofs11 Proofs.BaseProofs12 Proofs.BaseProofs13 Proofs.BaseProofs14 Proofs.BaseProofs15 Proofs.BaseProofs16 Proofs.BaseProofs17 Proofs.BaseProofs18 Proofs.BaseProofs19 Proofs.BaseProofs20 Proofs.BaseProofs21
+  Proofs.BaseProofs Proofs.BaseProofs2 Proofs.BaseProofs3 Proofs.BaseProofs4 Proofs.BaseProofs5 Proofs.BaseProofs6 Proofs.BaseProofs7 Proofs.BaseProofs8 Proofs.BaseProofs9 Proofs.BaseProofs10 Proofs.BaseProofs11 Proofs.BaseProofs12 Proofs.BaseProofs13 Proofs.BaseProofs14 Proofs.BaseProofs15 Proofs.BaseProofs16 Proofs.BaseProofs17 Proofs.BaseProofs18 Proofs.BaseProofs19 Proofs.BaseProofs20 Proofs.BaseProofs21 Proofs.BaseProofs22
   Model.BasePyNp.
 Import ListNotations.
 
@@ -735,3 +735,50 @@ Example C01_unfold_is_matricize_nonvacuous :
   1 < ndim t /\ nth 1 (shape t) 0 <> 0 /\ unfold 0 t 1 = Ok (mk [3; 4] [0; 1; 6; 7; 2; 3; 8; 9; 4; 5; 10; 11]) /\
   unfold 0 (mk [0; 3] []) 0 = Err /\ matricize 0 (mk [0; 3] []) [0] None = Ok (mk [0; 3] []).
 Proof. cbv zeta. split; [cbn; repeat constructor|]. split; [cbn; discriminate|]. repeat split; vm_compute; reflexivity. Qed.
+
+(* ---------- injectivity (round 9): the index bijections lose nothing -- two well-formed tensors of ONE shape with the same
+   mode-m unfolding, or the same vectorisation, are the same tensor.  The shape hypothesis is necessary: the Example shows two
+   different tensors (shapes [2;3;2] and [2;2;3]) whose mode-0 unfoldings and vectorisations coincide. ---------- *)
+Theorem C01_unfold_injective : forall (A : Type) (d : A) (t t' : tensor A) (m : nat) (u : tensor A),
+  wf t -> wf t' -> shape t = shape t' -> m < ndim t -> nth m (shape t) 0 <> 0 ->
+  unfold d t m = Ok u -> unfold d t' m = Ok u -> t = t'.
+Proof. exact @unfold_injective. Qed.
+Print Assumptions C01_unfold_injective.
+
+Theorem C01_vec_injective : forall (A : Type) (t t' v : tensor A),
+  wf t -> wf t' -> shape t = shape t' ->
+  tensor_to_vec t = Ok v -> tensor_to_vec t' = Ok v -> t = t'.
+Proof. exact @vec_injective. Qed.
+Print Assumptions C01_vec_injective.
+
+Example C01_unfold_injective_nonvacuous :
+  let t := mk [2; 3; 2] (seq 0 12) in let t' := mk [2; 2; 3] (seq 0 12) in
+  wf t /\ wf t' /\ 0 < ndim t /\ nth 0 (shape t) 0 <> 0 /\
+  unfold 0 t 0 = Ok (mk [2; 6] (seq 0 12)) /\ unfold 0 t' 0 = unfold 0 t 0 /\ t <> t' /\
+  tensor_to_vec t = Ok (mk [12] (seq 0 12)) /\ tensor_to_vec t' = tensor_to_vec t.
+Proof. cbv zeta. repeat split; try (vm_compute; reflexivity); try (vm_compute; repeat constructor); try discriminate. Qed.
+
+Theorem C01_partial_unfold_injective : forall (A : Type) (d : A) (t t' u : tensor A) (m sb se : nat) (rav : bool),
+  wf t -> wf t' -> shape t = shape t' ->
+  partial_unfold d t m sb se rav = Ok u -> partial_unfold d t' m sb se rav = Ok u -> t = t'.
+Proof. exact @partial_unfold_injective. Qed.
+Print Assumptions C01_partial_unfold_injective.
+
+Theorem C01_partial_vec_injective : forall (A : Type) (d : A) (t t' u : tensor A) (sb se : nat),
+  wf t -> wf t' -> shape t = shape t' ->
+  partial_tensor_to_vec d t sb se = Ok u -> partial_tensor_to_vec d t' sb se = Ok u -> t = t'.
+Proof. exact @partial_vec_injective. Qed.
+Print Assumptions C01_partial_vec_injective.
+
+Theorem C01_matricize_injective : forall (A : Type) (d : A) (t t' u : tensor A) (rows : list nat) (cols : option (list nat)),
+  wf t -> wf t' -> shape t = shape t' ->
+  matricize d t rows cols = Ok u -> matricize d t' rows cols = Ok u -> t = t'.
+Proof. exact @matricize_injective. Qed.
+Print Assumptions C01_matricize_injective.
+
+Example C01_partial_matricize_injective_nonvacuous :
+  let t := mk [2; 3; 2] (seq 0 12) in
+  wf t /\ partial_unfold 0 t 0 1 0 false = Ok (mk [2; 3; 2] (seq 0 12)) /\
+  partial_tensor_to_vec 0 t 1 0 = Ok (mk [2; 6] (seq 0 12)) /\
+  matricize 0 t [1] None = Ok (mk [3; 4] [0; 1; 6; 7; 2; 3; 8; 9; 4; 5; 10; 11]).
+Proof. cbv zeta. repeat split; try (vm_compute; reflexivity); try (vm_compute; repeat constructor). Qed.
